@@ -1,5 +1,5 @@
 #!/bin/sh
 # (re)generate the coq Makefile over every .v file present under /verif/coq
 cd "$(dirname "$0")/../coq" || exit 2
-{ cat _CoqProject; find . -name '*.v' | sed 's|^\./||' | sort; } > .CoqProject.all
+{ cat _CoqProject; find . -name '*.v' -not -path './Extract/*' | sed 's|^\./||' | sort; } > .CoqProject.all
 coq_makefile -f .CoqProject.all -o Makefile >/dev/null
